@@ -76,7 +76,7 @@ ASSUMPTIONS = [
     "context (namespace, cycler, joiner, list) are never modified from its macros or by importers (the cached module "
     "would carry the change into later renders)",
     "errors are outcomes compared by class: TemplateError, TypeError, ValueError, ArithmeticError, LookupError, AttributeError, "
-    "AssertionError (truncate's argument assertion)",
+    "AssertionError (truncate's argument assertion), RecursionError (unbounded template recursion; partial output not compared)",
     "random filter and lipsum are not used; set-valued output is sorted in the template; object addresses inside rendered "
     "text (repr of a lazy filter result) are normalised before comparing",
     "thread part: chance-driven schedule exploration, sound on every schedule; switches reported are a lower bound "
@@ -240,7 +240,9 @@ def _allowed():
         import jinja2
 
         # AssertionError: the truncate filter asserts ``length >= len(end)`` (wild fragments reach it)
-        _ALLOWED = (jinja2.TemplateError, TypeError, ValueError, ArithmeticError, LookupError, AttributeError, AssertionError)
+        # RecursionError: a G-stmt program may rebind the variable of a recursive loop to an outer list and recurse forever
+        _ALLOWED = (jinja2.TemplateError, TypeError, ValueError, ArithmeticError, LookupError, AttributeError, AssertionError,
+                    RecursionError)
     return _ALLOWED
 
 
@@ -387,6 +389,8 @@ def _run_entry(world, name, entry, di, loop):
         if entry == "default_module":
             return ["out", str(t.module), None]
         raise core.HarnessError("unknown entry %r" % entry)
+    except RecursionError:
+        return ["err", "RecursionError", ""]  # how much was produced before the limit depends on the caller's stack depth
     except _allowed() as e:
         return ["err", type(e).__name__, "".join(partial)]
 
